@@ -51,21 +51,21 @@ def _ops():
     ns = _ns
     e, p = ns.emit, ns.parse
 
-    def parse_T(S, T):
-        node = T.body[0]
+    def parse_tree(tree):
+        node = tree.body[0]
         if isinstance(node, ast.ClassDef):
             return canon_ir(p.class_(node))
         if any(isinstance(s, ast.Expr) and isinstance(getattr(s, "value", None), ast.Call) and getattr(s.value.func, "attr", "") == "add_argument" for s in node.body):
             return canon_ir(p.argparse_ast(node))
         return canon_ir(p.function(node))
 
-    def parse_T_merge(S, T):
-        node = T.body[0]
+    def parse_tree_merge(tree):
+        node = tree.body[0]
         if isinstance(node, ast.ClassDef):
             return canon_ir(p.class_(node, merge_inner_function="__init__"))
         return canon_ir(p.function(node))
 
-    def find(S, T):
+    def find(T):
         node = T.body[0]
         name = node.name
         r = ns.ast_utils.find_in_ast([name], T)
@@ -76,30 +76,34 @@ def _ops():
             out.append(None if r2 is None else [type(r2).__name__, getattr(r2, "arg", None), ast.dump(r2.default) if getattr(r2, "default", None) is not None else None])
         return out
 
-    def composite(S, T):
+    def composite(S, T, U):
         # what conformance.ground_truth does with one gold_ir: argparse, class, function in turn
         return [_code(e.argparse_function(S)), _code(e.class_(S)), _code(e.function(S, function_name="f", function_type="static"))]
 
     return [
-        ("emit.class_", lambda S, T: _code(e.class_(S))),
-        ("emit.class_call", lambda S, T: _code(e.class_(S, emit_call=True, class_name="K"))),
-        ("emit.class_docs", lambda S, T: _code(e.class_(S, emit_default_doc=True, class_name="D"))),
-        ("emit.function", lambda S, T: _code(e.function(S, function_name="f", function_type="static"))),
-        ("emit.function_docs", lambda S, T: _code(e.function(S, function_name="g", function_type="self", inline_types=False, emit_as_kwonlyargs=False, emit_default_doc=True))),
+        ("emit.class_", lambda S, T, U: _code(e.class_(S))),
+        ("emit.class_call", lambda S, T, U: _code(e.class_(S, emit_call=True, class_name="K"))),
+        ("emit.class_docs", lambda S, T, U: _code(e.class_(S, emit_default_doc=True, class_name="D"))),
+        ("emit.function", lambda S, T, U: _code(e.function(S, function_name="f", function_type="static"))),
+        ("emit.function_docs", lambda S, T, U: _code(e.function(S, function_name="g", function_type="self", inline_types=False, emit_as_kwonlyargs=False, emit_default_doc=True))),
         # under the IR's own name and type, so that a carried body is re-emitted (get_internal_body matches on them)
-        ("emit.function_same", lambda S, T: _code(e.function(S, function_name=None, function_type=None))),
-        ("emit.argparse_same", lambda S, T: _code(e.argparse_function(S, function_name=None, function_type=None))),
-        ("emit.argparse", lambda S, T: _code(e.argparse_function(S))),
-        ("emit.argparse_doc", lambda S, T: _code(e.argparse_function(S, emit_default_doc=True, function_name="h"))),
-        ("emit.docstring_rest", lambda S, T: e.docstring(S, docstring_format="rest")),
-        ("emit.docstring_numpydoc", lambda S, T: e.docstring(S, docstring_format="numpydoc", emit_default_doc=False)),
-        ("emit.docstring_google", lambda S, T: e.docstring(S, docstring_format="google")),
+        ("emit.function_same", lambda S, T, U: _code(e.function(S, function_name=None, function_type=None))),
+        ("emit.argparse_same", lambda S, T, U: _code(e.argparse_function(S, function_name=None, function_type=None))),
+        ("emit.argparse", lambda S, T, U: _code(e.argparse_function(S))),
+        ("emit.argparse_doc", lambda S, T, U: _code(e.argparse_function(S, emit_default_doc=True, function_name="h"))),
+        ("emit.docstring_rest", lambda S, T, U: e.docstring(S, docstring_format="rest")),
+        ("emit.docstring_numpydoc", lambda S, T, U: e.docstring(S, docstring_format="numpydoc", emit_default_doc=False)),
+        ("emit.docstring_google", lambda S, T, U: e.docstring(S, docstring_format="google")),
         ("sync.composite", composite),
-        ("parse.T", parse_T),
-        ("parse.T_merge", parse_T_merge),
-        ("find_in_ast.T", find),
-        ("annotate_ancestry.T", lambda S, T: ast.dump(ns.ast_utils.annotate_ancestry(T))),
-        ("to_code.T", lambda S, T: _code(T)),
+        # T: the tree S was parsed from (its body statements are shared with S["_internal"]["body"])
+        ("parse.T", lambda S, T, U: parse_tree(T)),
+        ("to_code.T", lambda S, T, U: _code(T)),
+        # U: a second tree of the same source that nothing has touched yet (what a parser does to a tree it sees first)
+        ("parse.U", lambda S, T, U: parse_tree(U)),
+        ("parse.U_merge", lambda S, T, U: parse_tree_merge(U)),
+        ("find_in_ast.U", lambda S, T, U: find(U)),
+        ("annotate_ancestry.U", lambda S, T, U: ast.dump(ns.ast_utils.annotate_ancestry(U))),
+        ("to_code.U", lambda S, T, U: _code(U)),
     ]
 
 
@@ -134,6 +138,11 @@ def make_state(seed):
             src += "\n    def __init__(self, extra: int = 1):\n        \"\"\"\n        Construct.\n\n        :param extra: the extra\n        \"\"\"\n        self.extra = extra\n"
     else:
         src = render.render_argparse(desc)
+    if kind in ("function", "method_in_class") and ch.chance("emptydoc", 0.15):
+        # a docstring that is present but empty, every parameter defaulted (what emit.function writes for a bare description)
+        first = "self, " if kind == "method_in_class" else ""
+        args = ", ".join("%s=%s" % (p["name"], render.lit(p["default"]) if p["default"] is not None else "None") for p in desc["params"])
+        src = 'def train(%s%s):\n    """ """\n    return %s\n' % (first, args, desc["params"][0]["name"])
     return {"seed": seed, "kind": kind, "src": src, "with_ret": with_ret, "with_body": with_body}
 
 
@@ -151,12 +160,13 @@ def build(state):
         S = p.function(node)
     if S.get("returns") is None:
         S["returns"] = None
-    return S, T
+    U = _ns.st.ast_parse(state["src"])
+    return S, T, U
 
 
-def call(op, S, T):
+def call(op, S, T, U):
     try:
-        r = op(S, T)
+        r = op(S, T, U)
         return core.canon(r)
     except Exception as e:
         return "EXC:%s" % type(e).__name__
@@ -168,7 +178,7 @@ def explore(state, seq_len=3, sample4=0, only=None):
     setup()
     ops = _ops()
     names = [n for n, _ in ops]
-    S0, T0 = build(state)
+    S0, T0, U0 = build(state)
     # reference results: each call alone, on a pristine copy, in a forked child - a process that has done nothing else
     from dtsim import fs
 
@@ -176,15 +186,15 @@ def explore(state, seq_len=3, sample4=0, only=None):
         out = {}
         for n, f in ops:
             _fresh()
-            S, T = copy.deepcopy((S0, T0))
-            out[n] = call(f, S, T)
+            S, T, U = copy.deepcopy((S0, T0, U0))
+            out[n] = call(f, S, T, U)
         return out
 
     def ref_one(n, f):
         def run():
             _fresh()
-            S, T = copy.deepcopy((S0, T0))
-            return call(f, S, T)
+            S, T, U = copy.deepcopy((S0, T0, U0))
+            return call(f, S, T, U)
         return fs.run_forked(run)
 
     ref = {n: ref_one(n, f) for n, f in ops}
@@ -195,21 +205,21 @@ def explore(state, seq_len=3, sample4=0, only=None):
     # from a process in its import-time state (slower, so the length-3 level is sampled instead of enumerated).
     _fresh()
     for n, f in ops:
-        S, T = copy.deepcopy((S0, T0))
-        call(f, S, T)
+        S, T, U = copy.deepcopy((S0, T0, U0))
+        call(f, S, T, U)
     hidden = _proc.dirty() if _proc is not None else []
     _fresh()
     stats["hidden_process_state"] = 1 if hidden else 0
 
     def run_seq(seq):
         _fresh()
-        S, T = copy.deepcopy((S0, T0))
+        S, T, U = copy.deepcopy((S0, T0, U0))
         stats["sequences"] += 1
         for k, n in enumerate(seq):
-            got = call(dict(ops)[n], S, T)
+            got = call(dict(ops)[n], S, T, U)
             stats["calls"] += 1
             if got != ref[n]:
-                culprit = minimal_culprit(ops, S0, T0, list(seq[:k]), n, ref)
+                culprit = minimal_culprit(ops, S0, T0, list(seq[:k]), n, ref, U0)
                 key = (tuple(culprit), n)
                 if key not in viols:
                     viols[key] = {"seq": list(seq[: k + 1]), "culprits": culprit, "victim": n, "got": got[:300], "want": ref[n][:300]}
@@ -224,53 +234,51 @@ def explore(state, seq_len=3, sample4=0, only=None):
             run_seq([chh.choice("h%d.%d" % (i, k), names) for k in range(3 if i % 2 else 4)])
         return list(viols.values()), stats
 
-    def rec(prefix, S, T, depth):
+    def rec(prefix, S, T, U, depth):
         for n, f in ops:
             if depth == 0:
                 _fresh()
-            elif _proc is not None and depth >= 1:
-                pass  # (state built up by the prefix is part of the history)
-            S2, T2 = copy.deepcopy((S, T))
-            got = call(f, S2, T2)
+            S2, T2, U2 = copy.deepcopy((S, T, U))
+            got = call(f, S2, T2, U2)
             stats["calls"] += 1
             stats["sequences"] += 1
             seq = prefix + [n]
             if got != ref[n]:
-                culprit = minimal_culprit(ops, S0, T0, prefix, n, ref)
+                culprit = minimal_culprit(ops, S0, T0, prefix, n, ref, U0)
                 key = (tuple(culprit), n)
                 if key not in viols:
                     viols[key] = {"seq": seq, "culprits": culprit, "victim": n, "got": got[:300], "want": ref[n][:300]}
                 continue  # what follows a divergence is not trusted
             if depth + 1 < seq_len:
-                rec(seq, S2, T2, depth + 1)
+                rec(seq, S2, T2, U2, depth + 1)
 
     if only is not None:
         _fresh()
-        S, T = copy.deepcopy((S0, T0))
+        S, T, U = copy.deepcopy((S0, T0, U0))
         ok = True
         for n in only:
             f = dict(ops)[n]
-            got = call(f, S, T)
+            got = call(f, S, T, U)
             stats["calls"] += 1
             if got != ref[n]:
-                culprit = minimal_culprit(ops, S0, T0, only[: only.index(n)] if only.count(n) == 1 else only[:-1], n, ref)
+                culprit = minimal_culprit(ops, S0, T0, only[: only.index(n)] if only.count(n) == 1 else only[:-1], n, ref, U0)
                 viols[(tuple(culprit), n)] = {"seq": list(only), "culprits": culprit, "victim": n, "got": got[:300], "want": ref[n][:300]}
                 break
         stats["sequences"] = 1
         return list(viols.values()), stats
-    rec([], S0, T0, 0)
+    rec([], S0, T0, U0, 0)
     if sample4:
         ch = Chooser(state["seed"]).fork("len4")
         for i in range(sample4):
             seq = [ch.choice("s%d.%d" % (i, k), names) for k in range(4)]
             _fresh()
-            S, T = copy.deepcopy((S0, T0))
+            S, T, U = copy.deepcopy((S0, T0, U0))
             stats["sequences"] += 1
             for k, n in enumerate(seq):
-                got = call(dict(ops)[n], S, T)
+                got = call(dict(ops)[n], S, T, U)
                 stats["calls"] += 1
                 if got != ref[n]:
-                    culprit = minimal_culprit(ops, S0, T0, seq[:k], n, ref)
+                    culprit = minimal_culprit(ops, S0, T0, seq[:k], n, ref, U0)
                     key = (tuple(culprit), n)
                     if key not in viols:
                         viols[key] = {"seq": seq[: k + 1], "culprits": culprit, "victim": n, "got": got[:300], "want": ref[n][:300]}
@@ -278,14 +286,14 @@ def explore(state, seq_len=3, sample4=0, only=None):
     return list(viols.values()), stats
 
 
-def minimal_culprit(ops, S0, T0, prefix, victim, ref):
+def minimal_culprit(ops, S0, T0, prefix, victim, ref, U0=None):
     """Smallest sub-sequence of `prefix` (tried: each single op, then the whole prefix) after which `victim` diverges."""
     table = dict(ops)
     for n in prefix:
         _fresh()
-        S, T = copy.deepcopy((S0, T0))
-        call(table[n], S, T)
-        if call(table[victim], S, T) != ref[victim]:
+        S, T, U = copy.deepcopy((S0, T0, U0))
+        call(table[n], S, T, U)
+        if call(table[victim], S, T, U) != ref[victim]:
             _fresh()
             return [n]
     _fresh()
@@ -318,7 +326,7 @@ def run_check(prop, tier):
     t0 = time.monotonic()
     base = core.base_seed()
     known = core.load_known()
-    n = 64 if tier == "quick" else 3000
+    n = 48 if tier == "quick" else 3000
     if "DTSIM_RUNS" in os.environ:
         n = int(os.environ["DTSIM_RUNS"])
     budget = float(os.environ.get("DTSIM_BUDGET_S", "420" if tier == "quick" else "900"))
@@ -402,7 +410,7 @@ def run_check(prop, tier):
         nviol += len(new) - max_report
         lines.append("  (%d further distinct violation signatures not minimised)" % (len(new) - max_report))
     wall = time.monotonic() - t0
-    nops = 18
+    nops = 20
     cov = {
         "evaluations": stats["sequences"],
         "distinct_nontrivial": len(kinds),
@@ -436,7 +444,7 @@ def run_check(prop, tier):
 
 def _alphabet_names():
     return [(n, None) for n in ["emit.class_", "emit.class_call", "emit.class_docs", "emit.function", "emit.function_docs", "emit.function_same", "emit.argparse_same", "emit.argparse", "emit.argparse_doc", "emit.docstring_rest",
-                                "emit.docstring_numpydoc", "emit.docstring_google", "sync.composite", "parse.T", "parse.T_merge", "find_in_ast.T", "annotate_ancestry.T", "to_code.T"]]
+                                "emit.docstring_numpydoc", "emit.docstring_google", "sync.composite", "parse.T", "to_code.T", "parse.U", "parse.U_merge", "find_in_ast.U", "annotate_ancestry.U", "to_code.U"]]
 
 
 def replay(doc, path):
